@@ -455,6 +455,9 @@ def run_asgi(ctx):
                 break
             if name in ('read_n', 'read', 'readall') and rec['ret'] == b'' and rec['eof'] is False:
                 ctx.violate('asgi.stream.eof', 'read returned b"" but eof is False', op=name)
+            if rec.get('stop') and rec['eof'] is False:
+                ctx.violate('asgi.stream.eof', 'iteration stopped (end of stream) but eof is False '
+                            '(events %r)' % (ctx.plan['events'],), op=name)
     # receive() must not be awaited once the body is complete
     final_idx = None
     taken = 0
@@ -469,6 +472,10 @@ def run_asgi(ctx):
     if final_idx is not None and len(conn.pulled) > final_idx + 1:
         ctx.violate('asgi.stream.receive_after_end', 'receive() pulled %d event(s) after the body was '
                     'complete' % (len(conn.pulled) - final_idx - 1))
+    elif conn.recv_after_disconnect:
+        ctx.violate('asgi.stream.receive_after_end', 'receive() awaited %d more time(s) after the stream had '
+                    'been handed http.disconnect (would block on a real server)' % conn.recv_after_disconnect,
+                    after='disconnect')
     elif final_idx is not None and finished and conn.in_receive:
         ctx.violate('asgi.stream.receive_after_end', 'receive() still awaited after the body was complete')
     for oid, msg in conn.monitor.violations:
